@@ -178,6 +178,23 @@ func (f *faultStore) Put(context.Context, resource.Type, resource.Resource) erro
 func (f *faultStore) Destroy(context.Context, resource.Type, resource.Pointer) error { return f.hit() }
 func (f *faultStore) Load(context.Context, inmem.LoadHandler) error                  { return nil }
 
+// slowStore is a BackingStore that persists nothing and takes a while for every write.
+type slowStore struct{ d time.Duration }
+
+func (s slowStore) Put(context.Context, resource.Type, resource.Resource) error {
+	time.Sleep(s.d)
+
+	return nil
+}
+
+func (s slowStore) Destroy(context.Context, resource.Type, resource.Pointer) error {
+	time.Sleep(s.d)
+
+	return nil
+}
+
+func (s slowStore) Load(context.Context, inmem.LoadHandler) error { return nil }
+
 func raceBuilder() namespaced.StateBuilder {
 	var (
 		mu      sync.Mutex
@@ -253,6 +270,13 @@ func makeHandles(t *testing.T, dir string, which []string) []handle {
 				return inmem.NewStateWithOptions(inmem.WithBackingStore(fs))(ns)
 			})
 			hs = append(hs, handle{name: w, st: st, close: func() {}, faults: fs})
+		case "slowstore":
+			// a backing store whose writes take real time: concurrent callers overlap with a store call in progress
+			ss := slowStore{d: 3 * time.Millisecond}
+			st := namespaced.NewState(func(ns resource.Namespace) state.CoreState {
+				return inmem.NewStateWithOptions(inmem.WithBackingStore(ss))(ns)
+			})
+			hs = append(hs, handle{name: w, st: st, close: func() {}})
 		case "grpc":
 			ad, _ := newRemote(namespaced.NewState(inmem.Build))
 			hs = append(hs, handle{name: w, st: ad, close: func() {}, remote: true})
